@@ -142,6 +142,12 @@ def compare(root, pps, excl, cfg, how, out, armed, spec):
             else:
                 rk = {}
             ctx = util.chdir(root) if how == 'cwd' else util.chdir(os.getcwd())
+            if how != 'cwd' and sum(map(len, texts)) % 2 == 0:
+                # half of the cases: an absolute pattern that matches nothing stands first in the list (both calls);
+                # what the other patterns denote does not depend on it
+                texts = [root + '/zz_no_such_entry'] + texts
+                case['patterns'] = texts
+                case['abs_first'] = True
             with ctx:
                 res = G.glob(texts, flags=fl, **kw, **rk)
                 S = {W.strip_sep(W.norm_dup(r)) for r in res}
